@@ -202,7 +202,7 @@ def r3(ctx):
     if not b:
         return
     cl = [bb for bb, t in b.calls(re.compile(r"^indexmap::IndexMap::(clear|drain)$")) if "turmoil_io_uring::host::IoUringHostState::rings" in _fields_of(b, t["args"][0])]
-    nt = [bb for bb, t in b.calls(re.compile(r"Notify::notify_waiters$"))]
+    nt = [bb for fb in ctx.w.family(b.id) for bb, t in fb.calls(re.compile(r"Notify::notify_waiters$"))]   # also as the body of a for_each closure
     ok = bool(cl) and not always_passes(b, cl)
     ctx.inst(R, "crash:forgets-rings", ok, b.span, "every ring (and every pending op) is forgotten" if ok else "IoUringHostState::crash does not clear the rings on every path: submitted ops complete after the crash")
     ctx.inst(R, "crash:wakes-waiters", bool(nt), b.span, "parked reapers are woken" if nt else "crash does not wake parked reapers")
